@@ -167,7 +167,11 @@ def main():
     covers = [r for r in results if r.kind == 'cover']
     failed = [r for r in proves if r.status != 'discharged']
     errors = [r for r in results if r.status == 'error']
-    vacuous = [r for r in covers if r.status == 'vacuous']
+    # a cover point is vacuous only when it is unsatisfiable on *every* path that reaches it
+    by_cover = {}
+    for r in covers:
+        by_cover.setdefault((getattr(r, 'target', ''), r.name), []).append(r)
+    vacuous = [rs[0] for rs in by_cover.values() if all(x.status == 'vacuous' for x in rs)]
     extra_failed = [x for x in extra if x['status'] not in ('discharged', 'bounded-ok', 'covered')]
 
     known_hit = []
@@ -202,26 +206,44 @@ def main():
             json.dump(payload, f, indent=1, default=str)
         return fn
 
-    native_path = native.get('replay') if native and native.get('found') else None
+    fails = (native or {}).get('failures', []) if native else []
+
+    def native_for(name):
+        best = None
+        for f in fails:
+            k = f['key']
+            if k != '*' and k in name and (best is None or len(k) > len(best['key'])):
+                best = f
+        if best is None:
+            for f in fails:
+                if f['key'] == '*':
+                    best = f
+        return best
+
     for r, _ in new_fail:
         if isinstance(r, dict):
             name, status, model, reason = r['name'], r['status'], r.get('detail', ''), ''
         else:
             name, status, model, reason = r.name, r.status, r.model, r.reason
+        nf = native_for(name)
         payload = {'property': pid, 'obligation': name, 'solver_status': status, 'solver_output': model,
                    'solver_reason': reason, 'target': getattr(r, 'target', None) if not isinstance(r, dict) else None,
-                   'native_replay': native_path,
-                   'native_search': (native or {}).get('summary')}
-        if native_path:
-            payload['failing_input'] = native.get('scenario')
+                   'native_search': (native or {}).get('summary') if native else 'no replayer'}
+        if nf:
+            payload['scenario'] = nf['scenario']
+            payload['native_detail'] = nf['detail']
             path = write_replay(name, payload)
-            violations.append('VIOLATION property=%s replay=%s obligation=%s' % (pid, native_path, name))
+            violations.append('VIOLATION property=%s replay=%s obligation=%s' % (pid, path, name))
         else:
             path = write_replay(name, payload)
             violations.append('VIOLATION property=%s replay=%s obligation=%s no-failing-input-found' % (pid, path, name))
     for nm, err, _ in unsupported:
-        if native_path:
-            violations.append('VIOLATION property=%s replay=%s obligation=%s:vc-generation' % (pid, native_path, nm))
+        nf = native_for(nm) or (fails[0] if fails else None)
+        if nf:
+            path = write_replay(nm + ':vc-generation', {'property': pid, 'obligation': nm + ':vc-generation',
+                                                        'solver_status': 'vc generation abandoned: ' + err,
+                                                        'scenario': nf['scenario'], 'native_detail': nf['detail']})
+            violations.append('VIOLATION property=%s replay=%s obligation=%s:vc-generation' % (pid, path, nm))
         else:
             undecided.append('UNDECIDED property=%s target=%s: contracts need re-attaching (%s)' % (pid, nm, err))
 
@@ -288,14 +310,10 @@ def main():
     if a.verbose or violations:
         for r in failed:
             print('  %-11s %s [%s %.1fs] %s' % (r.status, r.name, r.backend, r.seconds, r.reason[:80]))
+            if a.verbose:
+                print('              path: %s' % getattr(r.ob, 'trace', ''))
     print('%s %s: %d obligations, %d discharged, %d known findings, %d paths, %.1fs' %
           (pid, tier, n_ob, n_dis, len(known_hit), n_paths, time.time() - t0))
-    if errors:
-        print('CHECKER-ERROR: solver error on %s' % ', '.join(r.name for r in errors[:5]))
-        sys.exit(3)
-    if vacuous:
-        print('CHECKER-ERROR: vacuous pre-state (cover unsat) in %s' % ', '.join(r.name for r in vacuous[:5]))
-        sys.exit(3)
     if violations:
         for v in sorted(set(violations)):
             print(v)
@@ -304,6 +322,13 @@ def main():
         for u in undecided:
             print(u)
         sys.exit(2)
+    if errors:
+        print('CHECKER-ERROR: solver error on %s' % ', '.join(r.name for r in errors[:5]))
+        sys.exit(3)
+    if vacuous:
+        print('CHECKER-ERROR: vacuous pre-state (cover unsat) in %s' % ', '.join(r.name for r in vacuous[:5]))
+        sys.exit(3)
+
     if n_ob == 0:
         print('CHECKER-ERROR: zero obligations generated')
         sys.exit(3)
